@@ -330,6 +330,8 @@ func (g *Gen) prefixexp(d int, call bool) {
 	}
 }
 
+var memberPool = []string{"f", "g", "field", "n", "x"}
+
 func (g *Gen) suffix(d int, call bool) {
 	k := g.r.Intn(6)
 	if call {
@@ -337,7 +339,7 @@ func (g *Gen) suffix(d int, call bool) {
 	}
 	switch k {
 	case 0, 1:
-		g.emit(".", g.r.Pick([]string{"f", "g", "field", "n", "x"}))
+		g.emit(".", g.r.Pick(memberPool))
 	case 2:
 		g.emit("[")
 		g.exp(d)
@@ -385,7 +387,13 @@ func (g *Gen) table(d int) {
 		case 0:
 			g.exp(d)
 		case 1:
-			g.emit(fmt.Sprintf("k%d", i), "=")
+			if g.r.Bool() {
+				g.emit(fmt.Sprintf("k%d", i), "=")
+			} else {
+				// the same small pool the member accesses draw from, so that tables have known members that are read,
+				// called and assigned again later
+				g.emit(g.r.Pick(memberPool), "=")
+			}
 			g.exp(d)
 		case 2:
 			g.emit("[")
@@ -591,7 +599,7 @@ func (g *Gen) stat() {
 			}
 		}
 	case k < 8: // assignment
-		n := g.r.Range(1, 2)
+		n := g.r.Range(1, 3)
 		for i := 0; i < n; i++ {
 			if i > 0 {
 				g.emit(",")
@@ -601,16 +609,18 @@ func (g *Gen) stat() {
 				// real programs do not write them (not explored, see DESIGN C05)
 				g.noFunc++
 				g.emit(g.someVar())
-				g.suffix(ed-1, false)
+				if g.r.Bool() { // otherwise a plain two-level target v.k, k from the pool table keys come from
+					g.suffix(ed-1, false)
+				}
 				g.noFunc--
 				// ensure the last suffix is an index, not a call
-				g.emit(".", "fld")
+				g.emit(".", g.r.Pick([]string{"fld", "fld", "f", "n", "x"}))
 			} else {
 				g.emit(g.assignable())
 			}
 		}
 		g.emit("=")
-		m := g.r.Range(1, 2)
+		m := g.r.Range(1, max(2, n)) // fewer, as many, or (for one target) more values than targets
 		for i := 0; i < m; i++ {
 			if i > 0 {
 				g.emit(",")
